@@ -34,7 +34,43 @@ def run_one(patch, cid, tier, seed="1", examples=None):
         shutil.rmtree(work, ignore_errors=True)
 
 
+def run_benign(patch, checks, tier="quick", seed="1"):
+    """A behaviour-preserving change: every check must stay quiet (exit 0)."""
+    work = tempfile.mkdtemp(prefix="vp-benign-", dir=SCRATCH)
+    res = []
+    try:
+        repo = os.path.join(work, "repo")
+        os.makedirs(repo)
+        subprocess.run(["rsync", "-a", "--exclude", ".git", "--exclude", "docs", "/repo/", repo + "/"], check=True)
+        r = subprocess.run(["patch", "-p1", "-s", "-d", repo, "-i", os.path.abspath(patch)], capture_output=True, text=True)
+        if r.returncode != 0:
+            return [("PATCH-FAILED", r.stdout + r.stderr)]
+        for cid in checks:
+            env = dict(os.environ, VERIF_REPO=repo, VERIF_OUT=os.path.join(work, "out"), VERIF_SEED=seed, VERIF_TIER=tier)
+            r = subprocess.run(["/venv/bin/python", "-m", "vp.run", cid, "--tier", tier], cwd=VERIF, env=env, capture_output=True, text=True)
+            lines = [l for l in r.stdout.splitlines() if l.startswith(("VIOLATION", "  violation", "HARNESS"))]
+            res.append((cid, r.returncode, lines[:2]))
+            print(f"  {os.path.basename(patch)} {cid} exit={r.returncode} {lines[:1]}", flush=True)
+        return res
+    finally:
+        shutil.rmtree(work, ignore_errors=True)
+
+
 def main():
+    if "--benign" in sys.argv:
+        checks = [f"C{i:02d}" for i in range(1, 21)]
+        if "--checks" in sys.argv:
+            checks = sys.argv[sys.argv.index("--checks") + 1].split(",")
+        only = sys.argv[sys.argv.index("--only") + 1] if "--only" in sys.argv else ""
+        bad = 0
+        for p in sorted(glob.glob(os.path.join(VERIF, "benign", "*.patch"))):
+            if only and only not in p:
+                continue
+            res = run_benign(p, checks)
+            alarms = [r for r in res if r[1] != 0]
+            bad += len(alarms)
+            print(f"{'QUIET' if not alarms else 'ALARM'} {os.path.basename(p)} {[(a[0], a[1]) for a in alarms]}", flush=True)
+        return 1 if bad else 0
     ap = argparse.ArgumentParser()
     ap.add_argument("--only", default=None)
     ap.add_argument("--tier", default="quick")
